@@ -660,7 +660,8 @@ def divideDaughter (fuel : Nat) (here : Path) (mother : String) (acc : DivAcc)
   let m ← node (here ++ [mother])
   let processes ←
     if KV.has "processes" dk || KV.has "steps" dk then do
-      let p ← getKey dk "processes"
+      -- `daughter.get('processes', {})`: a daughter may list steps only
+      let p := (KV.lookup "processes" dk).getD (.dict [])
       match p, (KV.lookup "steps" dk).getD (.dict []) with
       | .dict a, .dict b => do
         let mm ← lift (deepMergeCheck a b)
